@@ -114,7 +114,7 @@ def run(ctx):
     import json
     import positions as P
     from concurrent.futures import ThreadPoolExecutor
-    nh = 9000 if ctx["tier"] == "quick" else 400000
+    nh = 9000 if ctx["tier"] == "quick" else 150000
     hfens = P.mate_hunt_positions(ctx["seed"], nh)
     # (the Coq oracle is slow: a queen and a rook on the board cost minutes; quick: only king + one man v king beyond the corpus)
     small = [f for f in hfens if sum(ch.isalpha() for ch in f.split()[0]) <= (3 if ctx["tier"] == "quick" else 4)]
@@ -228,7 +228,7 @@ def run(ctx):
     cov["rule"] = ("15 sparse positions with a mate in one, a mate in two or an avoidable mate-in-one threat x sequences of searches sharing "
                    "the cache ((3), (4,3), (2,4,3), (3,3), ...): engine vs model (move, score), and the three clauses judged on the engine's "
                    "choices by a mate oracle evaluated in Coq on the model (mating moves; forced mate within 2-3 moves; replies that mate); "
-                   "hunt: 9 000 (quick) / 400 000 (thorough) random sparse positions on the engine alone with the cache ON, each searched in 8-10 sequences "
+                   "hunt: 9 000 (quick) / 150 000 (thorough) random sparse positions on the engine alone with the cache ON, each searched in 8-10 sequences "
                    "sharing the cache, every chosen move judged by a mate oracle over the engine's board API which is compared with the Coq oracle each run; "
                    "every mate SCORE (|score| >= 32000) of every one of these searches confirmed by an exhaustive memoised mate solver (the tie of C12_mate_scores_sound)")
     cov["samples"].append({"fen": fens[0], "sequences": seqs})
